@@ -3,6 +3,8 @@ package main
 
 import (
 	"fmt"
+	"io"
+	"log"
 	"os"
 
 	"verifharness/internal/checks"
@@ -14,6 +16,9 @@ func main() {
 		os.Exit(2)
 	}
 	id, tier := os.Args[1], os.Args[2]
+	if os.Getenv("VERIF_DEBUG") == "" {
+		log.SetOutput(io.Discard) // the code under test logs every request
+	}
 	f, ok := checks.Registry[id]
 	if !ok {
 		fmt.Printf("CHECK-ERROR property=%s no such check\n", id)
